@@ -4,6 +4,11 @@ import json, sys
 BASE = json.load(open('/root/.vp/BASELINE.json'))
 ALL = ["C%02d" % i for i in range(1, 21)]
 CHECKS = {
+ "C14": dict(cat="model_checking", engine="schedmc",
+   technique="stateless DFS over thread interleavings of the real, instrumented server/job code under a cooperative scheduler (iterated preemption bound 0,1,2, then unbounded with state-key pruning) against a model of net/http.Server",
+   text="server/job.go and server/server.go are instrumented at check time from the working tree (statement-level scheduling points; go/chan/close/<-/sync rewritten to scheduler-visible operations; http.Server replaced by a model whose steps mirror go1.23 server.go) and executed under a controlled scheduler: driver Run; RequestStop; AwaitStop; then both addresses must be unbound; 0..2 clients whose requests may be refused or, once accepted, must complete; 1..2 start/stop cycles on the same addresses. Invariants on every execution: no deadlock, no panic in start, addresses free when AwaitStop returns, accepted requests complete. All interleavings with <=1 preemption at statement level and <=2 / unbounded preemptions over shared-object operations (state-key pruning).",
+   note="net/http.Server is a model (vhttp); interleavings inside uninstrumented libraries are atomic; the main.go signal path is not under the explorer. Found and fixed F3.", ref="DESIGN.md C14"),
+
  "C12": dict(cat="exploration", engine="maporder",
    technique="exhaustive enumeration of map-iteration start positions (patched runtime, VERIF_MAPSEED) x construction paths x GOMAXPROCS in fresh processes; digest comparison",
    text="Each compilation runs in a fresh process built with a runtime whose map-iteration start is owned; product of (mode, dims) x {BuildR1CS*, Setup*, Import*Setup, CLI r1cs} x seeds (0..15 + spread; thorough 0..63 + spread) x GOMAXPROCS {1,2,16}, plus the runtime's own randomness and three compilations in one process; one SHA-256 of the serialised constraint system per (mode, dims); exactly one public input in the system, the public witness, the verifying key and the exported Solidity; deletion depth 32/33/64 refused by all three paths, 31 builds.",
@@ -103,6 +108,7 @@ def main():
             {"name": "r1csmc", "path": "harness/r1csmc", "serves_properties": ["C01", "C02", "C03", "C04", "C05", "C06"], "kind_free_text": "explicit-state search over a compiled R1CS: partial wire assignments, forced propagation, adversary choices for unforced/hint wires, independent constraint evaluator"},
             {"name": "groth16-real", "path": "harness/checks", "serves_properties": ["C07", "C10", "C11", "C15"], "kind_free_text": "bounded-exhaustive menus and operation chains on real Groth16 setups, proofs and key files"},
             {"name": "maporder", "path": "harness/maporder", "serves_properties": ["C12", "C17"], "kind_free_text": "go build -overlay of runtime/map.go making the random start of every map iteration an enumerable input; child processes per seed"},
+            {"name": "schedmc", "path": "harness/verifrt", "serves_properties": ["C14", "C13", "C09", "C20"], "kind_free_text": "AST instrumenter + cooperative scheduler + stateless DFS explorer (preemption bounding, state-key pruning) + model of net/http.Server, run on the repository's own server code via go build -overlay"},
             {"name": "enginemc", "path": "harness/gad", "serves_properties": ["C01", "C02", "C03", "C04", "C05", "C06"], "kind_free_text": "bounded-exhaustive evaluation of repo gadgets / full Define in gnark's test engine over small whole fields and BN254 alphabets"},
         ],
         "checks": checks,
